@@ -72,6 +72,32 @@ fn typed_errors(ctx: &mut Ctx, input: &[u8]) {
     t!(Value, "from_slice<Value>");
     t!(LazyValue, "from_slice<LazyValue>");
     t!(OwnedLazyValue, "from_slice<OwnedLazyValue>");
+    // lossy mode: invalid UTF-8 is repaired in a copy, positions still refer to the input
+    for kind in 0..4 {
+        let name = ["lossy Deserializer<Value>", "lossy Deserializer<String>", "lossy Deserializer<Vec<String>>", "lossy stream<Value>"][kind];
+        let r = guard(|| -> Vec<sonic_rs::Error> {
+            let mut de = sonic_rs::Deserializer::from_slice(input).utf8_lossy();
+            match kind {
+                0 => de.deserialize::<Value>().err().into_iter().collect(),
+                1 => de.deserialize::<String>().err().into_iter().collect(),
+                2 => de.deserialize::<Vec<String>>().err().into_iter().collect(),
+                _ => de.into_stream::<Value>().take(8).filter_map(|x| x.err()).collect(),
+            }
+        });
+        ctx.state();
+        ctx.call();
+        match r {
+            Err(p) => ctx.violation(&format!("panic/{name}"), json!({"entry": name, "input": show(input), "panic": p})),
+            Ok(errs) => {
+                if errs.is_empty() {
+                    ctx.outcome("ok");
+                }
+                for e in errs {
+                    check_err(ctx, name, input, &e, false);
+                }
+            }
+        }
+    }
 }
 
 fn lookup_errors(ctx: &mut Ctx, input: &[u8], paths: &[Vec<Seg>]) {
